@@ -70,5 +70,31 @@ def _install():
     ACTIVE.append("f-string formatting of a symbolic number yields the placeholder '<sym>' (diagnostic text is not modelled; "
                   "switched off where formatting is the subject)")
 
+    # -- 3. codecs.lookup of a pure-Python codec without stream classes (pdpy11's 'bk') ---
+    import codecs
+    from crosshair import core
+    from crosshair.libimpl import codecslib
+    from crosshair.core import realize
+
+    real_lookup = codecs.lookup
+    orig__lookup = codecslib._lookup
+
+    def _lookup(encoding):
+        with _NT():
+            enc = realize(encoding)
+            try:
+                return real_lookup("crosshair_" + enc)
+            except LookupError:
+                pass
+            info = real_lookup(enc)
+            if info.streamreader is None or info.streamwriter is None:
+                # a codec implemented by plain Python functions: run it under tracing as it is
+                return info
+        return orig__lookup(encoding)
+
+    codecslib._lookup = _lookup
+    core._PATCH_REGISTRATIONS[codecs.lookup] = _lookup
+    ACTIVE.append("codecs.lookup returns the real CodecInfo for pure-Python codecs without stream classes ('bk'); CrossHair's wrapper crashes on them")
+
 
 _install()
